@@ -340,8 +340,12 @@ func (c *Collection) PullID(ctx context.Context, id string, opts ...ReadOption) 
 	}
 
 	send := make(chan *ValueChange)
+	// the subscription to the collection ends with this one (also when it ends because the item was removed):
+	// nothing is left registered on the bus for writers to wait on
+	ctx, cancel := context.WithCancel(ctx)
 	go func() {
 		defer close(send)
+		defer cancel()
 		defer verifAt("pid.exit", send)
 		for change := range c.Pull(ctx, opts...) {
 			verifAt("pid.got", send)
